@@ -81,6 +81,7 @@ def w2_tasks(tier, seed, heavy=1):
     for sl in range(4): t.append(('w2', 't4', sl, 4, tier, seed))
     for sl in range(4): t.append(('w2', 't5', sl, 4, tier, seed))
     for sk, gk in F.t3_shards(1, 1, F.T3_KINDS_QUICK): t.append(('w2', ('t3', 1, sk, gk), 0, 1, tier, seed))
+    t.append(('w2', 'wide', 0, 1, tier, seed))
     if tier == 'thorough':
         for sk, gk in F.t3_shards(1, 2, ['NAND2', 'XOR2', 'MUX21']): t.append(('w2', ('t3', 1, sk, gk), 0, 1, tier, seed))
         for sk, gk in F.t3_shards(0, 2, F.T3_KINDS_QUICK): t.append(('w2', ('t3', 2, sk, gk), 0, 1, tier, seed))
@@ -116,8 +117,18 @@ def t2_wave():
                 yield NL(3, [], [(k0, ops0), (k1, ops1)], ['g1'])
 
 
+def wide():
+    """more than 16 ops in one level and more than 16 ports (crosses the 32x16 thread-block boundaries of the GPU path)"""
+    kinds = ['NAND2', 'XOR2', 'NOR2', 'AO21', 'MUX21', 'INV1']
+    gates = [(kinds[k % len(kinds)], tuple(f'i{(k + j) % 3}' for j in range(F.ARITY[kinds[k % len(kinds)]]))) for k in range(18)]
+    yield NL(3, [], gates, [f'g{k}' for k in range(18)])
+    gates2 = gates + [('XOR2', (f'g{k}', f'g{k + 1}')) for k in range(17)]
+    yield NL(3, [('dff', 'g20')], gates2, [f'g{18 + k}' for k in range(17)])
+
+
 def w2_circuits(task):
     fam, sl, nsl, tier, seed = task[1], task[2], task[3], task[4], task[5]
+    if fam == 'wide': return wide()
     if fam == 't1': g = t1_wave()
     elif fam == 't2':
         g = t2_wave()
